@@ -377,6 +377,62 @@ func rulesC08(e *Engine, r *Report) {
 	checkResumeSameVersion(e, r, "R08.9")
 	// ---------------------------------------------------------------- R08.10
 	e.shareRule(r, "C11", "R11.3", "R08.10", "the remainder after a partial success is split off for every count below the number of parts: Split(n) refuses only n < 1 and n >= len(parts) - refusing len(parts)-1 as well makes `all but the last part received` look like `all received`, and the last part is never sent again")
+	// ---------------------------------------------------------------- R08.11
+	r.Rule("R08.11", "after the split only the remainder goes back to the sender: handleSendError returns the payload it was given only on paths that never reached Split (a stop before the count was known); once Split was called its result is what is returned - nil when the receiver holds every part - because the payload itself has by then been handed to the tracker as transmitted; and the count Split is called with includes the answer of the recovery request, not only the count the failed request carried")
+	if fn := needFn(e, r, "R08.11", "client.(*Broker).handleSendError"); fn != nil {
+		splits := e.findInstrs(fn, "invoke(sts.Payload.Split)(p1, §)", false)
+		r.Min("R08.11", "Split calls in handleSendError", len(splits), 1)
+		for _, sp := range splits {
+			arg := e.Canon(sp.(*ssa.Call).Call.Args[0])
+			r.Check(strings.Contains(arg, "dyn(p0.Conf.TxRecoverer)(p1)#0"), "R08.11", "client.(*Broker).handleSendError: Split is called with the count that includes the recovery answer", e.InstrPos(sp),
+				"Split is called with `"+shorten(arg)+"`, which does not include what the recovery request answered: after a lost connection the count is 0 and the whole payload is booked as transmitted", 1, arg)
+			// returns: a parameter leaf only over edges not reachable from the Split
+			okRet, nRet := true, 0
+			var walk func(v ssa.Value, seen map[ssa.Value]bool)
+			walk = func(v ssa.Value, seen map[ssa.Value]bool) {
+				ph, isPhi := v.(*ssa.Phi)
+				if !isPhi || seen[v] {
+					return
+				}
+				seen[v] = true
+				for i, ed := range ph.Edges {
+					if p, isParam := ed.(*ssa.Parameter); isParam && p == fn.Params[1] {
+						pred := ph.Block().Preds[i]
+						if pred == sp.Block() || reaches(sp.Block(), pred, nil) {
+							// ... unless the hand-over to the tracker was refused because of a stop:
+							// nothing is sent any more then
+							stopped := false
+							for _, c := range e.domConds(pred) {
+								if strings.HasPrefix(c, "!call(client.sendCh[") {
+									stopped = true
+								}
+							}
+							if t, isIf := pred.Instrs[len(pred.Instrs)-1].(*ssa.If); isIf {
+								if strings.HasPrefix(e.CondStr(t.Cond, pred.Succs[0] == ph.Block()), "!call(client.sendCh[") {
+									stopped = true
+								}
+							}
+							if !stopped {
+								okRet = false
+							}
+						}
+					}
+					walk(ed, seen)
+				}
+			}
+			Instrs(fn, func(in ssa.Instruction) {
+				if rt, ok := in.(*ssa.Return); ok && len(rt.Results) == 1 && rt.Block().Comment != "recover" {
+					nRet++
+					if p, isParam := rt.Results[0].(*ssa.Parameter); isParam && p == fn.Params[1] && (rt.Block() == sp.Block() || reaches(sp.Block(), rt.Block(), nil)) {
+						okRet = false
+					}
+					walk(rt.Results[0], map[ssa.Value]bool{})
+				}
+			})
+			r.Check(okRet && nRet > 0, "R08.11", "client.(*Broker).handleSendError: after Split the result of Split is returned", e.InstrPos(sp),
+				"a path that has called Split returns the payload it was given: when the receiver holds every part (Split answers nil) the whole payload is sent, and counted, a second time", 1)
+		}
+	}
 }
 
 // constOr renders a package-level string constant as a canonical literal.
